@@ -3,6 +3,7 @@ package gen
 import (
 	"encoding/json"
 	"fmt"
+	"sort"
 	"strings"
 	"time"
 
@@ -1269,9 +1270,14 @@ func (g *scenGen) contactRefresh(orig M) M {
 			c["fields"] = f
 		case 5:
 			if f, ok := c["fields"].(map[string]any); ok {
+				// drop one field value; which one is decided by r over the sorted keys (a scenario is a pure function of its case)
+				keys := make([]string, 0, len(f))
 				for k := range f {
-					delete(f, k) // drop one field value (map order does not matter: whichever goes, exactly one attribute differs)
-					break
+					keys = append(keys, k)
+				}
+				sort.Strings(keys)
+				if len(keys) > 0 {
+					delete(f, keys[r.Intn(len(keys))])
 				}
 			}
 		case 6:
